@@ -18,7 +18,7 @@ export VERIF_KP="$ROOT/harness/target/kp/debug/kp"
 OBJ=""
 for id in $IDS; do
   b=$(echo $id | tr A-Z a-z)
-  LLVM_PROFILE_FILE="$SCR/prof/$b-%p-%m.profraw" "$SCR/target/release/$b" quick >"$SCR/$b.log" 2>&1
+  VERIF_SCALE=${COV_SCALE:-0.1} LLVM_PROFILE_FILE="$SCR/prof/$b-%p-%m.profraw" "$SCR/target/release/$b" quick >"$SCR/$b.log" 2>&1
   echo "$id exit=$? $(grep -E "^$id quick:" "$SCR/$b.log" | head -1)"
   OBJ="$OBJ -object $SCR/target/release/$b"
   "$TOOLS/llvm-profdata" merge -sparse "$SCR"/prof/$b-*.profraw -o "$SCR/$b.profdata" && rm -f "$SCR"/prof/$b-*.profraw
